@@ -7,7 +7,7 @@ from rules import common, c10
 
 CLAIMED = True
 TECHNIQUE = "static analysis over type-checked MIR: panic/abort-site inventory over the call-graph cone of PatternEncoder::new/encode/deserialize (overflow/bounds asserts, may-panic external contracts, fallible Display into write_fmt), discharged by dominating-guard must-facts or a construct-keyed allow-list; dominance of strftime validation over every Time chunk construction; checked width accumulation; error-marker template"
-LEVEL_TEXT = """Static, all-paths decision that no un-discharged panic site is reachable from PatternEncoder::new, <PatternEncoder as Encode>::encode or the pattern deserializer (cone over resolved callees incl. closures and callbacks through external generics; cut at dyn Encode and at writers outside the pattern module): (P1) every MIR overflow/bounds/div assert and every call whose external contract is 'may panic' is discharged by a dominating guard (vector length / Option emptiness / non-zero must-facts), or by an allow-list entry keyed by function+construct+operand provenance with a stated reason; (P2) every construction of the Time chunk is dominated by a strftime validation of the same format string whose failure edge yields an error chunk (chrono's Display fails on bad directives and write_fmt would panic); (P3) the decimal width accumulator uses checked/saturating arithmetic only, with the overflow edge surfacing an error piece (dev and release configurations); (P4) the error arm of Chunk::encode writes '{ERROR: <msg>}' and every Piece::Error becomes Chunk::Error. Stack depth under nested patterns (parser/From recursion) is listed, not decided."""
+LEVEL_TEXT = """Static, all-paths decision that no un-discharged panic site is reachable from PatternEncoder::new, <PatternEncoder as Encode>::encode or the pattern deserializer (cone over resolved callees incl. closures and callbacks through external generics; cut at dyn Encode and at writers outside the pattern module): (P1) every MIR overflow/bounds/div assert and every call whose external contract is 'may panic' is discharged by a dominating guard (vector length / Option emptiness / non-zero must-facts), or by an allow-list entry keyed by function+construct+operand provenance with a stated reason; (P2) every construction of the Time chunk is dominated by a strftime validation of the same format string whose failure edge yields an error chunk (chrono's Display fails on bad directives and write_fmt would panic); (P3) the decimal width accumulator uses checked/saturating arithmetic only, with the overflow edge surfacing an error piece (dev and release configurations); (P4) the error arm of Chunk::encode writes '{ERROR: <msg>}' and every Piece::Error becomes Chunk::Error. Stack depth under nested patterns (parser/From recursion) is listed, not decided. (P7) in Parser::args every group parsed is pushed before the next is looked for or the list returned; (P8) nothing in the module's cone is sized by a parsed width."""
 LEVEL_NOTE = "Trusted: rustc MIR/callee resolution; the external-contract table (an external callee not listed is assumed not to panic); io::Write contract (n <= buf.len()) for the inner writer; chrono's StrftimeItems reports every invalid directive as Item::Error. Conservative: a new un-discharged site in the cone is reported even if it cannot fail for reasons the dischargers do not see."
 EXPLANATION = """Decided: P1 panic-site inventory over the cone (all sites discharged), P2 validated strftime formats, P3 checked width accumulation, P4 error rendering. Undecided: stack depth for deeply nested patterns (recursion noted), behaviour of the underlying writer (C18 owns the console/ANSI writers)."""
 DECIDED = ["P1 panic inventory", "P2 strftime validated before use", "P3 checked width accumulation", "P4 {ERROR: ..} rendering", "P5 the parser's cursor moves before every piece it returns"]
@@ -63,8 +63,35 @@ def rule_args_kept(ctx, p, cfg, rid="P7"):
                       fail_detail="a group parsed by arg() can be dropped: bb%s is reached without pushing it (an empty `()` after a formatter that takes no arguments then goes unreported)" % sorted(hit))
 
 
+SIZED = ("take", "with_capacity", "reserve", "reserve_exact", "resize", "resize_with", "from_elem", "repeat", "repeat_n", "extend_from_within", "try_reserve", "truncate")
+
+
+def rule_no_width_sized_allocation(ctx, p, cfg, rid="P8"):
+    """A width is any number that fits in a usize, and a minimum or maximum that large is legal as long as nothing is ever done
+    `width` times ahead of the text: no function of the pattern module asks for memory (or builds a value) whose size is a parsed
+    width - `String::with_capacity(min)`, `repeat(fill).take(min).collect()`, `vec![x; max]` fail with capacity overflow, or
+    take the machine down, at construction or at the first record."""
+    with ctx.rule(rid, "nothing is allocated in proportion to a parsed width", cfg) as r:
+        seen, bad = 0, []
+        for path in sorted(cone_of(p)):
+            f = p.fns[path]
+            for c in f.calls():
+                nm = (c.callee or "").rsplit("::", 1)[-1]
+                if nm not in SIZED or not c.args:
+                    continue
+                seen += 1
+                for i, a in enumerate(c.arg_exprs()):
+                    if any((x[0] == "call" and x[1] == c10.INTEGER_FN) or (x[0] == "field" and x[2] in ("min_width", "max_width")) for x in walk(a)):
+                        bad.append((f, c, i))
+        r.require(not bad, "no-allocation-by-width", fn=(bad[0][0] if bad else None), site=(bad[0][1].at if bad else None),
+                  detail="size-taking calls in the pattern module's cone: %d, none sized by a parsed width" % seen,
+                  fail_detail="%s(..) in %s is sized by a parsed width: `{m:9223372036854775808}` is a legal pattern and would make it allocate that much" % (
+                      bad[0][1].callee if bad else "", bad[0][0].path if bad else ""))
+
+
 def run_cfg(ctx, p, cfg):
     rule_args_kept(ctx, p, cfg, "P7")
+    rule_no_width_sized_allocation(ctx, p, cfg, "P8")
     satisfied = set()
     with ctx.rule("P2", "format strings are validated before use", cfg) as r:
         f = p.fn(FROM_PIECE)
